@@ -227,6 +227,9 @@ impl<'w> FnTr<'w> {
         }
         self.deps.insert(info.module.clone());
         let call = if out.is_empty() { info.lean.clone() } else { format!("{} {}", info.lean, out.join(" ")) };
+        if !info.self_mutated.is_empty() && !self.in_call_stmt {
+            return Err(self.err(e, "a call of a `&mut self` method that modifies fields is only supported as a statement of its own"));
+        }
         if !info.inout.is_empty() {
             // only as a statement of its own (`tr_call_stmt` rebinds the arguments)
             if info.ret != RTy::Unit { return Err(self.err(e, "function with `&mut` struct parameters that also returns a value")); }
